@@ -32,7 +32,8 @@ Print Assumptions auth_first_everywhere.
    if the handler of the matched route runs, the header is "Basic <text>" with <text> a complete valid base64 text
    decoding to login:pass; and a request without exactly those credentials runs no handler, is not buffered by the
    compression wrapper, and is answered 401/400 by BasicAuth itself (after pass-through wrappers only) or 404/405 by
-   the router's own dispatch. *)
+   the router's own dispatch -- or, for a path that is not in canonical form ("//", "/./", "/../"), by the router's
+   301 redirect issued before any matching; in the last three cases with no middleware having run at all. *)
 Theorem no_handler_without_credentials :
   forall (env : nat -> bool) login pass other h root q,
   (forall a, In a gen_must -> env a = true) ->
@@ -42,9 +43,11 @@ Theorem no_handler_without_credentials :
                   b64_decode_prefix rest = login ++ ":" ++ pass) /\
   (exact_credentials login pass (q_auth q) = false ->
      handler_ran p = false /\ p_gzip p = false /\
-     (p_status p = 401 \/ p_status p = 400 \/ p_status p = 404 \/ p_status p = 405)%N /\
+     (p_status p = 401 \/ p_status p = 400 \/ p_status p = 404 \/ p_status p = 405 \/
+      (p_status p = 301 /\ path_clean (q_path q) = false))%N /\
      ((p_status p = 401 \/ p_status p = 400)%N -> exists pre, forallb transparent pre = true /\
-        p_trace p = (map EvNext pre ++ [EvReject (p_status p)])%list)).
+        p_trace p = (map EvNext pre ++ [EvReject (p_status p)])%list) /\
+     ((p_status p = 404 \/ p_status p = 405 \/ p_status p = 301)%N -> p_trace p = [])).
 Proof. intros env login pass other h root q H. exact (assembly_no_handler login pass other h _ (proj1 (gen_ok env H)) root q). Qed.
 Print Assumptions no_handler_without_credentials.
 
@@ -85,7 +88,8 @@ Print Assumptions compression_cors_cannot_bypass.
    Origin + Access-Control-Request-Method/-Headers, which the handler-side tag q_tag stands for) -- in every
    configuration, for every method (OPTIONS included), path and Accept-Encoding: no handler runs, nothing is
    gzip-buffered, and the answer is BasicAuth's own 401 challenge (WWW-Authenticate set) after pass-through wrappers
-   only, or the router's own 404/405 with NO middleware having run (so no CORS layer answered it either). *)
+   only, or the router's own 404/405 (301 for a path not in canonical form) with NO middleware having run (so no CORS
+   layer answered it either). *)
 Theorem preflight_cannot_bypass :
   forall (env : nat -> bool) login pass other h root q,
   (forall a, In a gen_must -> env a = true) ->
@@ -94,7 +98,8 @@ Theorem preflight_cannot_bypass :
   handler_ran p = false /\ p_gzip p = false /\
   ((p_status p = 401%N /\ p_www p = true /\ exists pre, forallb transparent pre = true /\
        p_trace p = (map EvNext pre ++ [EvReject 401%N])%list)
-   \/ ((p_status p = 404%N \/ p_status p = 405%N) /\ p_www p = false /\ p_trace p = [])).
+   \/ ((p_status p = 404%N \/ p_status p = 405%N \/ (p_status p = 301%N /\ path_clean (q_path q) = false)) /\
+       p_www p = false /\ p_trace p = [])).
 Proof.
   intros env login pass other h root q H Ha.
   exact (dispatch_no_header true login pass other h _ root q (proj1 (gen_ok env H)) Ha).
@@ -214,6 +219,10 @@ Example colon_password_example : has_char ":"%char "s3cr:et" = true /\ basic_aut
 Proof. split; reflexivity. Qed.
 Example empty_password_example : basic_header "user" "" = "Basic dXNlcjo=" /\ basic_auth "user" "" "Basic dXNlcg==" = VDenied401.
 Proof. split; reflexivity. Qed.
+Example unclean_path_example :
+  path_clean "/ready" = true /\ path_clean "/" = true /\ path_clean "/ready/" = true /\ path_clean "//ready" = false /\
+  path_clean "/loki/../ready" = false /\ path_clean "/./ready" = false /\ path_clean "" = false /\ path_clean "/ready/." = false.
+Proof. repeat split; reflexivity. Qed.
 Example no_header_example :
   q_auth {| q_method := "OPTIONS"; q_path := "/ready"; q_auth := ""; q_gzip := true; q_tag := 204 |} = "".
 Proof. reflexivity. Qed.
